@@ -29,7 +29,8 @@ LEVEL_TEXT = (
     "coupling (C18_monotone_coupling, C18_more_edges_larger_components): for phi <= phi' and the same draws the kept "
     "edges at phi are among those at phi', so no component and not the returned numerator can shrink (the direction of "
     "the comparison, for every graph and draw sequence; strict on the example C18_monotone_nonvacuous); the value depends only on the undirected kept-edge set and the "
-    "vertex set, not on edge order, orientation, multiplicity or vertex order (C18_value_depends_on_sets_only). Tied to "
+    "vertex set, not on edge order, orientation, multiplicity or vertex order (C18_value_depends_on_sets_only); components are equivalence classes: equal as sets or disjoint "
+    "(C18_components_are_classes). Tied to "
     "gcmpy/tools/bond_percolate.py by running the real function under a scripted random.random and comparing the float "
     "with the model's exact k/N; the input graph is compared before/after.")
 LEVEL_NOTE = ("Trusted: Coq kernel; extraction + driver + harness; independence/uniformity of random.random(); networkx "
